@@ -86,6 +86,10 @@ def cases(tier):
             c = {"kind": "multi", "n": n, "factors": fac, "_weight": 9 ** n * 3}
             c["_split"] = (4 if len(fac) == 1 else 5) if n == 2 else 8
             out.append(c)
+    # several points at once with load step labels that do not ascend
+    out.append({"kind": "multi", "n": 2, "factors": [0.5], "steps": [7, 3], "_weight": 9 ** 2 * 3, "_split": 4})
+    if not q:
+        out.append({"kind": "multi", "n": 4, "factors": [0.5], "steps": [1, 0, 3, 2], "_weight": 9 ** 4 * 3, "_split": 8})
     # several points at once, history fed in several process() calls: any samples (plateaus, non-reversals, borders anywhere)
     for n in ((4,) if q else (4, 5)):
         for k in (1, 2):
@@ -483,7 +487,8 @@ def run(ctx, case):
     if kind == "multi":
         factors = [1.0] + list(case["factors"])
         nodes = [7, 9, 4][:len(factors)]
-        idx = pd.MultiIndex.from_product([range(n), nodes], names=["load_step", "node_id"])
+        steps = case.get("steps") or list(range(n))          # load step labels need not ascend: the row order is the time order
+        idx = pd.MultiIndex.from_product([steps, nodes], names=["load_step", "node_id"])
         vals = []
         for x in xs:
             vals += [f * x for f in factors]
